@@ -146,8 +146,11 @@ def _dimension_guards(f: Fn, nid: int, arr: str) -> Tuple[bool, bool]:
         tn = f.cfg.nodes[tid]
         if tn.kind != 'test' or lab != 'F':
             continue
-        raises = any(isinstance(f.cfg.nodes[b].ast, ast.Raise) and raised_class(f.cfg.nodes[b].ast) == 'DimensionError'
-                     for (b, l2) in tn.succ if l2 == 'T')
+        # the true branch ends in DimensionError: directly, or after building the message - it never reaches the store
+        tsucc = [b for (b, l2) in tn.succ if l2 == 'T']
+        raises = bool(tsucc) and all(
+            not f.cfg.reaches(b, nid) and any(isinstance(m_.ast, ast.Raise) and raised_class(m_.ast) == 'DimensionError' and (m_.id == b or f.cfg.reaches(b, m_.id))
+                                              for m_ in f.cfg.nodes) for b in tsucc)
         if not raises:
             continue
         for atom in disj_atoms(tn.ast):
